@@ -376,6 +376,9 @@ def linspace(
         dsk[task.key] = task
 
     if retstep:
+        if num <= (1 if endpoint else 0):
+            # there is no interval, like numpy
+            step = float("nan")
         return Array(dsk, name, chunks, dtype=dtype), step
     else:
         return Array(dsk, name, chunks, dtype=dtype)
